@@ -396,6 +396,20 @@ def _sml_models(ck, which):
         ck.model("MCPrintParse", "MCPrintParse", "MCPrintParse_%s.cfg" % ck.tier, timeout=q(ck, 600, 3000))
 
 
+def _sml_enum(ck, specs, props, agree=("InvAgreeParse",)):
+    """co-enumeration for SML: every word sequence of the given scopes through the real parser, every result judged by TLC
+    against the lexer/parser model (one trace per scope list, at most ~40 k events each)"""
+    total = 0
+    for k, spec in enumerate(specs):
+        evs = ck.trace("enum%d" % k, "sml-enum", ["-arg", spec], "TraceSml", "TraceSml.cfg", list(props), agree=list(agree),
+                       nontrivial=lambda e: len(e.get("text", [])) > 5, key=SML_KEY, timeout=3000)
+        total += len(evs)
+        if ck.violations:
+            break
+    ck.extra["sml_co_enumeration"] = dict(scopes=specs, texts=total, vocabulary=34, small_vocabulary=12)
+    return total
+
+
 @check("C04", design_ref="4 C04, App. G",
        technique="TLC model checking that the TLA+ parser model inverts the TLA+ printer model on a bounded scope; trace validation of real String() -> sml.Parse round trips of random expressible messages and of every message of accepted texts",
        text="For seeded random messages expressible in SML (every ASCII code in strings, boundary numbers, shortest-form floats, ASCII variables with "
@@ -424,6 +438,12 @@ def c04(ck):
 def c05(ck):
     ck.rule.append("13 types x about 360 literals (every range boundary of every width and its neighbours in bases 2, 8, 10, 16 and the 0-prefixed octal form, both signs; floats; strings; codes; T/F; variables) x 3 positions x random letter case, plus random plausible texts; non-trivial = every event; distinct by text")
     ck.trace("lit", "lit", ["-n", q(ck, 500, 20000)], "TraceSml", "TraceSml.cfg", ["InvC05"], agree=["InvAgreeParse"], key=SML_KEY)
+    if ck.violations:
+        return
+    # every sequence of words in item position: type word, size, values of every class, closing
+    ck.rule.append("co-enumeration: every sequence of <= 2 (quick) / 3 words of a 34-word vocabulary and <= 3 / 4 words of a 12-word one "
+                   "between '<' and '>' of an item")
+    _sml_enum(ck, q(ck, ["item:full:2,item:small:3"], ["item:full:3", "item:small:4"]), ["InvC05"])
     ck.assumptions.append(SML_NOTE)
 
 
@@ -446,6 +466,13 @@ def c06(ck):
                                      with_warnings=sum(1 for e in evs if e.get("warns")),
                                      several_errors=sum(1 for e in evs if len(e.get("errs", [])) > 1),
                                      several_messages=sum(1 for e in evs if len(e.get("msgs", [])) > 1))
+    if ck.violations:
+        return
+    # co-enumeration: every short word sequence in five contexts (behind a header, in a list, in an item, as header, behind a message)
+    ck.rule.append("co-enumeration: every sequence of <= 2 (quick) / 3 words of a 34-word vocabulary in 5 contexts, and <= 3 / 4 words of a "
+                   "12-word one in list position")
+    _sml_enum(ck, q(ck, ["top:full:2,list:full:2,item:full:2,head:full:2,two:full:2,list:small:3"],
+                    ["top:full:3", "list:full:3", "head:full:3", "two:full:3", "list:small:4"]), ["InvC06"])
     if ck.violations:
         return
     ck.trace("lex", "lex", ["-n", q(ck, 1500, 15000)], "TraceSml", "TraceSml.cfg", [], agree=["InvAgreeLex"],
